@@ -105,7 +105,7 @@ func weightsFamily(env *Env) error {
 			alpha[j] = []float64{0.01, 0.3, 0.99, 1, 1.01, 3, 30, 100}[rng.Intn(8)]
 		}
 		if k > 0 && rng.Intn(8) == 0 {
-			alpha[rng.Intn(k)] = []float64{0, -1}[rng.Intn(2)]
+			alpha[rng.Intn(k)] = []float64{0, -1, math.NaN(), math.Inf(1), math.Inf(-1)}[rng.Intn(5)]
 		}
 		ev := blank("dirichlet")
 		ev.Alpha, ev.Seed = strs(alpha), rng.Intn(1<<30)
